@@ -159,7 +159,14 @@ def accept(country: str, bban: str):
 def with_check(country: str, bban: str):
     """``bban`` with its check field replaced by the value that makes it valid (None if none)."""
     if country in ("CZ", "SK"):
-        return bban if accept(country, bban) else None
+        # the last digit of the prefix (weight 1) and of the account number (weight 1) are free
+        branch, account = _cut(country, bban, "branch"), _cut(country, bban, "account")
+        s1 = sum(int(d) * w for d, w in zip(branch[:5], [10, 5, 8, 4, 2]))
+        s2 = sum(int(d) * w for d, w in zip(account[:9], [6, 3, 7, 9, 10, 5, 8, 4, 2]))
+        d1, d2 = (-s1) % 11, (-s2) % 11
+        if d1 == 10 or d2 == 10:
+            return None
+        return bban[:9] + str(d1) + bban[10:19] + str(d2)
     if country == "IS":
         h = _cut("IS", bban, "holder")
         r = sum(int(d) * w for d, w in zip(h[:8], [3, 2, 7, 6, 5, 4, 3, 2])) % 11
